@@ -67,6 +67,15 @@ func NewAdapter(
 		return nil, fmt.Errorf("invalid concurrency: %d", concurrency)
 	}
 
+	// a rejected registration should not leave anything behind
+	registered := false
+
+	defer func() {
+		if !registered {
+			adapterOptions.DepDB.DeleteController(name)
+		}
+	}()
+
 	for _, output := range settings.Outputs {
 		if err := adapterOptions.DepDB.AddControllerOutput(name, output); err != nil {
 			return nil, err
@@ -91,6 +100,8 @@ func NewAdapter(
 			return nil, err
 		}
 	}
+
+	registered = true
 
 	state := adapterOptions.State
 
